@@ -2,7 +2,7 @@
 From Coq Require Import ZArith Reals List Bool String Lra.
 From Flocq Require Import Core.
 From VQ Require Import Num Model.Vec Model.Scalar Proofs.ScalarProofs.
-From VQ.Gen Require Import k_fsq_bound k_fsq_sym_bound k_lfq_quantize k_fsq_half_width.
+From VQ.Gen Require Import k_fsq_bound k_fsq_sym_bound k_lfq_quantize k_fsq_half_width k_lfq_ste.
 Import ListNotations.
 Open Scope R_scope.
 
@@ -20,3 +20,7 @@ Proof. unfold k_lfq_quantize; cbn. unfold Rltb. destruct (Rlt_dec 0 x); reflexiv
 (* the divisor of the quantized value is L // 2 *)
 Lemma glue_half_width (L : Z) : k_fsq_half_width L = (L / 2)%Z.
 Proof. reflexivity. Qed.
+(* LFQ in training: whatever the straight-through activation returns (a), the forward VALUE a + detach(q - a) is the quantized value q
+   (detach is the identity on values); in evaluation mode the source assigns `x = quantized` (checked by the generator) *)
+Lemma glue_lfq_ste_value (a q : R) : k_lfq_ste R_ops (fun v => v) a q = q.
+Proof. unfold k_lfq_ste; cbn. lra. Qed.
